@@ -14,7 +14,10 @@ EXPLANATION = (
     "ancestors' formatted names in nesting order ending with the element's own (G3); (N3) the producer returns the concatenation of "
     "a *suffix* of that trace - own name last, nearest ancestors before it, contiguous - whose length is the hint stored under the "
     "element's own formatted name, or nothing when there is no hint; (N4) a name that was collected exactly once gets the hint 1, "
-    "i.e. no ancestor qualification; (N5) every element gets a hint >= 1, keyed by the producer of the name itself (H2, H4).")
+    "i.e. no ancestor qualification; (N5) every element gets a hint >= 1, keyed by the producer of the name itself (H2, H4); "
+    "(N6) the recorded traces read element -> root (own name pushed/popped at the front of the deque, H5) so the hint counts from "
+    "the end the producer cuts its suffix from, and the search for the separating length tries every length up to the shortest "
+    "trace (H6).")
 
 CONCAT = ("std::slice::join", "alloc::slice::join", "std::slice::concat", "alloc::slice::concat", "alloc::str::join", "alloc::str::concat")
 EMPTY = ("std::string::String::new", "std::default::Default::default")
